@@ -53,6 +53,9 @@ func (m *memConn) FeedErr(err error) {
 }
 
 func (m *memConn) Read(p []byte) (int, error) {
+	if len(p) == 0 {
+		return 0, nil // like a net.Conn: a zero-length read does not block
+	}
 	m.mu.Lock()
 	for len(m.rq) == 0 && !m.closed && m.idleErr == nil {
 		m.cond.Wait()
